@@ -6,9 +6,23 @@
    the returned element decides the "exactly when" clauses.  Soundness/completeness of the walk itself is not proved; it is
    decided per query for every hint (including stale and out-of-range hints) and every hint generator. *)
 From Coq Require Import ZArith List Bool Arith.
-From SpadeV Require Import Geom.Pred Obs.State Obs.Spec Obs.SpecProp Obs.Query Obs.QueryProp Obs.QueryProofs.
+From SpadeV Require Import Geom.Pred Obs.State Obs.Spec Obs.SpecProp Obs.Query Obs.QueryProp Obs.QueryProofs Dcel.Raw Dcel.WfCore Tri.Locate Tri.LocateProofs.
 
 Theorem C09_checker_is_spec : forall s pts q r, locspec_b s pts q r = true <-> LocSpec s pts q r.
 Proof. exact locspec_b_spec. Qed.
 
+(* ---- SOUNDNESS of the walk: a model of walk_to_nearest_neighbor + the rotation loop of locate_with_hint_fixed_core (Tri/Locate.v; tied to the
+   code by element-for-element comparison of its answers with the implementation's, tag corr).  On every well-formed DCEL whose inner faces are
+   counter-clockwise, for every query point, every hint and every amount of fuel, whatever the model returns satisfies LocSpec:
+   OnVertex only at an equal position, OnEdge only strictly between the end points, OnFace only strictly inside, OutsideOfConvexHull only
+   strictly left of an outer half-edge.  (RPanic = the code's own loop counter ran out; completeness/termination of the loop is not proved.) ---- *)
+Theorem C09_locate_sound : forall pts d q hint r,
+  DWf d -> FacesCcw (obs_of_dcel d) pts ->
+  locate_with_hint pts d q hint = r -> r <> RPanic ->
+  LocSpec (obs_of_dcel d) pts q (lres_to_locres r).
+Proof. exact locate_result_matches_LocSpec. Qed.
+
+(* the answer does not depend on the hint being valid: any number is accepted (validate_vertex_handle) -- the statement above quantifies over all hints *)
+
+Print Assumptions C09_locate_sound.
 Print Assumptions C09_checker_is_spec.
